@@ -339,6 +339,13 @@ func TestC11(t *testing.T) {
 }
 
 func replayC11(t *testing.T, d replayDoc) *drv.Violation {
+	if d.Kind == "file-bytes" {
+		var data []byte
+		_ = jsonUnmarshal(d.Extra, &data)
+		dir := drv.ShmDir("c11bytes")
+		defer os.RemoveAll(dir)
+		return c11Bytes(dir, data)
+	}
 	e := drv.NewEnv("c11r")
 	defer e.Cleanup()
 	for _, op := range d.Ops {
@@ -377,8 +384,31 @@ func FuzzC11(f *testing.F) {
 	f.Add([]byte{})
 	f.Add(make([]byte, 8192))
 	if g := goldenFiles(); len(g) > 0 {
-		if b, err := os.ReadFile(g[1]); err == nil {
+		for _, gi := range []int{0, 1, len(g) / 2, len(g) - 1} {
+			b, err := os.ReadFile(g[gi])
+			if err != nil || len(b) < 8192 {
+				continue
+			}
+			// a valid file, and hostile relatives of it: cut short, one or both meta pages wiped, a byte of the
+			// magic / version / checksum changed in the first meta
 			f.Add(b[:8192])
+			f.Add(b[:4096])
+			f.Add(b[:1000])
+			for _, wipe := range [][2]int{{16, 80}, {0, 16}} {
+				c := append([]byte(nil), b[:16384%(len(b)+1)]...)
+				if len(c) < 8192 {
+					c = append([]byte(nil), b[:8192]...)
+				}
+				for i := wipe[0]; i < wipe[1]; i++ {
+					c[i] = 0
+				}
+				f.Add(c)
+			}
+			for _, off := range []int{16, 20, 16 + 56, 16 + 8, 16 + 48} {
+				c := append([]byte(nil), b[:8192]...)
+				c[off] ^= 0x01
+				f.Add(c)
+			}
 		}
 	}
 	dir := drv.ShmDir("c11fuzz")
@@ -387,26 +417,33 @@ func FuzzC11(f *testing.F) {
 		if len(data) == 0 {
 			return
 		}
-		p := filepath.Join(dir, "f.db")
-		_ = os.WriteFile(p, data, 0o600)
-		rf, err := refdec.Open(data, 0)
-		valid := err == nil && rf.Current() != nil
-		func() {
-			defer func() {
-				if r := recover(); r != nil && !valid {
-					t.Fatalf("Open panicked on a file without any valid meta page: %v", r)
-				}
-			}()
-			db, err := bolt.Open(p, 0600, &bolt.Options{ReadOnly: true})
-			if err != nil {
-				return
-			}
-			defer db.Close()
-			if !valid {
-				t.Fatalf("Open succeeded on a file in which the independent decoder finds no valid meta page")
-			}
-		}()
+		if v := c11Bytes(dir, data); v != nil {
+			failCase(t, replayDoc{Property: "C11", Kind: "file-bytes", Extra: mustJSON(data)}, v)
+		}
 	})
+}
+
+// c11Bytes: arbitrary bytes as a database file. Without a valid meta page (judged by the independent decoder)
+// Open must return an error - no panic, no database.
+func c11Bytes(dir string, data []byte) (v *drv.Violation) {
+	p := filepath.Join(dir, "f.db")
+	_ = os.WriteFile(p, data, 0o600)
+	rf, err := refdec.Open(data, 0)
+	valid := err == nil && rf.Current() != nil
+	defer func() {
+		if r := recover(); r != nil && !valid {
+			v = drv.Violf("Open panicked on a %d-byte file without any valid meta page: %v", len(data), r)
+		}
+	}()
+	db, err := bolt.Open(p, 0600, &bolt.Options{ReadOnly: true})
+	if err != nil {
+		return nil
+	}
+	defer db.Close()
+	if !valid {
+		return drv.Violf("Open succeeded on a %d-byte file in which the independent decoder finds no valid meta page", len(data))
+	}
+	return nil
 }
 
 var _ = errors.Is
